@@ -153,7 +153,7 @@ def split_frame_raw(frame: bytes) -> tuple[list[bytes], list[tuple[str, bytes]]]
             k, val = "", b""
             for f2, w2, v2 in parse_fields(v):
                 if f2 == 1 and w2 == LEN:
-                    k = v2.decode("utf-8")
+                    k = _utf8(v2)
                 elif f2 == 2 and w2 == LEN:
                     val = bytes(v2)
             meta.append((k, val))
@@ -343,9 +343,24 @@ def _utf8(b: bytes) -> str:
         raise WireError("invalid utf-8") from e
 
 
+def _once(fields, groups=None):
+    """Reject messages in which a field - or two members of one oneof group - occur more than once.
+
+    protobuf merges such input (last scalar wins, sub-messages are merged); no producer emits it and no property
+    speaks about it, so the reference decoder classifies it as a wire-level anomaly instead of modelling the merge.
+    """
+    seen = set()
+    for field, _wt, _v in fields:
+        key = groups(field) if groups else field
+        if key in seen:
+            raise WireError(f"field/oneof {key} repeated")
+        seen.add(key)
+    return fields
+
+
 def dec_options(buf: bytes) -> dict:
     o: dict = {}
-    for field, wt, v in parse_fields(buf):
+    for field, wt, v in _once(parse_fields(buf)):
         if field not in _OPT_BY_NUM:
             o.setdefault("_unknown", []).append(field)
             continue
@@ -366,7 +381,7 @@ def dec_options(buf: bytes) -> dict:
 
 def dec_iri(buf: bytes):
     pid = nid = 0
-    for field, wt, v in parse_fields(buf):
+    for field, wt, v in _once(parse_fields(buf)):
         if wt != VARINT:
             raise WireError("iri field wire type")
         if field == 1:
@@ -381,7 +396,7 @@ def dec_iri(buf: bytes):
 def dec_literal(buf: bytes):
     lex = ""
     kind = None
-    for field, wt, v in parse_fields(buf):
+    for field, wt, v in _once(parse_fields(buf), lambda f: "kind" if f in (2, 3) else f):
         if field == 1 and wt == LEN:
             lex = _utf8(v)
         elif field == 2 and wt == LEN:
@@ -397,7 +412,7 @@ def dec_stmt(buf: bytes, quad: bool) -> dict:
     st = {"s": None, "p": None, "o": None}
     if quad:
         st["g"] = None
-    for field, wt, v in parse_fields(buf):
+    for field, wt, v in _once(parse_fields(buf), lambda f: (f - 1) // 4 if f <= 16 else f):
         if 1 <= field <= 12:
             slot = "spo"[(field - 1) // 4]
             k = (field - 1) % 4
@@ -429,6 +444,8 @@ def _dec_graph(k: int, wt: int, v):
     if k == 2:
         return ("bnode", _utf8(v))
     if k == 3:
+        if v:
+            raise WireError("default graph message with content")
         return ("default",)
     if k == 4:
         return dec_literal(v)
@@ -437,7 +454,7 @@ def _dec_graph(k: int, wt: int, v):
 
 def dec_entry(buf: bytes):
     id_, value = 0, ""
-    for field, wt, v in parse_fields(buf):
+    for field, wt, v in _once(parse_fields(buf)):
         if field == 1 and wt == VARINT:
             id_ = v & 0xFFFFFFFF
         elif field == 2 and wt == LEN:
@@ -469,7 +486,7 @@ def dec_row(buf: bytes):
         return ("quad", dec_stmt(v, quad=True))
     if kind == "graph_start":
         g = None
-        for f2, w2, v2 in parse_fields(v):
+        for f2, w2, v2 in _once(parse_fields(v), lambda f: "g"):
             if not 1 <= f2 <= 4:
                 raise WireError("unknown graph_start field")
             g = _dec_graph(f2, w2, v2)
@@ -480,7 +497,7 @@ def dec_row(buf: bytes):
         return ("graph_end",)
     if kind == "namespace":
         name, iri = "", None
-        for f2, w2, v2 in parse_fields(v):
+        for f2, w2, v2 in _once(parse_fields(v)):
             if f2 == 1 and w2 == LEN:
                 name = _utf8(v2)
             elif f2 == 2 and w2 == LEN:
